@@ -576,6 +576,24 @@ pub fn write_evidence(id: &str, tier: Tier, seed: u64, wall_s: f64, st: &Stats, 
     if st.violations > 0 {
         coverage["violation_lines"] = serde_json::json!(st.violation_lines);
     }
+    // seeded changes (sub-agent mutants kept under seeded/) that this property's check was validated against
+    let mut validated: Vec<String> = meta.mutants_caught.clone();
+    if let Ok(rd) = std::fs::read_dir(format!("{}/seeded", verif_dir())) {
+        let mut dirs: Vec<_> = rd.flatten().map(|e| e.path()).collect();
+        dirs.sort();
+        for d in dirs {
+            let Ok(t) = std::fs::read_to_string(d.join("meta.json")) else { continue };
+            let Ok(m) = serde_json::from_str::<serde_json::Value>(&t) else { continue };
+            for c in m["caught_by"].as_array().cloned().unwrap_or_default() {
+                if let Some(c) = c.as_str() {
+                    if c.starts_with(&format!("{}:", id)) {
+                        validated.push(format!("{} -> {}", d.file_name().unwrap().to_string_lossy(), &c[id.len() + 1..]));
+                    }
+                }
+            }
+        }
+    }
+    coverage["mutants_caught"] = serde_json::json!(validated);
     let ev = serde_json::json!({
         "property_id": id,
         "tier": tier.name(),
